@@ -391,6 +391,10 @@ func (e *Engine) ptrTerm(st *State, p *PtrV) *smt.Term {
 		// injectivity (instance) and non-nil
 		st.Assume(e.C.Eq(e.C.App("fieldptr_inv$"+p.Key, smt.BV64, t), p.Obj))
 		st.Assume(e.C.Not(e.C.Eq(t, e.i64(0))))
+		st.Assume(e.C.Eq(e.C.Select(e.allocMap(st), t), e.C.Select(e.allocMap(st), p.Obj)))
+		if st.Pre != nil {
+			st.Assume(e.C.Eq(e.C.Select(e.allocMap(st.Pre), t), e.C.Select(e.allocMap(st.Pre), p.Obj)))
+		}
 		return t
 	case PGlobal:
 		t := e.C.Var("gaddr$"+p.Key, smt.BV64)
